@@ -6,6 +6,11 @@
 // writable) on entity [1]; peers are real remote devices (SetupRemoteDevice, detailed discovery
 // reply, binding request of their LoadControl client feature), so every write passes the
 // binding / write-permission gate of DeviceLocal.ProcessCmd before it reaches HandleMessage.
+// Peers with an odd number never announce a device address (discovery reply without deviceAddress,
+// datagrams without device part: the stack serves them by their connection; a peer that never answers
+// discovery has no known features, so its writes never reach HandleMessage and it is not part of this
+// world); peers 2 and 3 (mod 4) are removed through RemoveRemoteDeviceConnection, the others through
+// RemoveRemoteDevice - always the real teardown path, never CleanWriteApprovalCaches directly.
 // The approval callbacks only record that they were called; the verdicts are given by the
 // schedule: `Lookup` starts ApproveOrDenyWrite on a goroutine of its own, which the hook
 // "ApproveOrDenyWrite.lookedup" (build tag verif) parks between the lookup of the pending
@@ -235,20 +240,35 @@ func newWorld(slot time.Duration) *world {
 	_ = spine.VerifStackSubscribeCore(m)
 	spine.VerifSetYield(m.yield)
 	spine.VerifSetApprovalTimerHook(m.timerHook)
-	for p := int64(0); p < 3; p++ {
+	for p := int64(0); p < 4; p++ {
 		m.ensurePeer(p)
 	}
 	m.t0 = time.Now()
 	return m
 }
 
+// devPtr: the empty name stands for a peer that does not announce a device address.
+func devPtr(dev string) *model.AddressDeviceType {
+	if dev == "" {
+		return nil
+	}
+	return util.Ptr(model.AddressDeviceType(dev))
+}
+
 func nmAddr(dev string) *model.FeatureAddressType {
-	return &model.FeatureAddressType{Device: util.Ptr(model.AddressDeviceType(dev)), Entity: []model.AddressEntityType{0}, Feature: util.Ptr(model.AddressFeatureType(0))}
+	return &model.FeatureAddressType{Device: devPtr(dev), Entity: []model.AddressEntityType{0}, Feature: util.Ptr(model.AddressFeatureType(0))}
 }
 
 func clientAddr(dev string) *model.FeatureAddressType {
-	return &model.FeatureAddressType{Device: util.Ptr(model.AddressDeviceType(dev)), Entity: []model.AddressEntityType{1}, Feature: util.Ptr(model.AddressFeatureType(1))}
+	return &model.FeatureAddressType{Device: devPtr(dev), Entity: []model.AddressEntityType{1}, Feature: util.Ptr(model.AddressFeatureType(1))}
 }
+
+// Peer kinds (by peer number, so that the operation list determines them): odd peers never announce a
+// device address (their detailed discovery reply has no deviceAddress, their datagrams no device part;
+// the stack serves them by their connection); peers 2, 3 (mod 4) are removed through
+// RemoveRemoteDeviceConnection, the others through RemoveRemoteDevice.
+func anonymous(p int64) bool     { return p%2 == 1 }
+func viaConnection(p int64) bool { return p%4 >= 2 }
 
 func (m *world) inject(pr *peer, h model.HeaderType, cmd model.CmdType) {
 	h.SpecificationVersion = &spine.SpecificationVersion
@@ -265,6 +285,9 @@ func (m *world) ensurePeer(p int64) *peer {
 		return pr
 	}
 	pr := &peer{p: p, ski: m.ski(p), devA: fmt.Sprintf("d%d", p+1), ctr: 1 << 40}
+	if anonymous(p) {
+		pr.devA = ""
+	}
 	m.peers[p] = pr
 	rdr := m.dev.SetupRemoteDevice(pr.ski, &writer{m, p})
 	pr.reader = rdr.(interface {
@@ -279,14 +302,18 @@ func (m *world) ensurePeer(p int64) *peer {
 		}
 	}
 	m.mu.Unlock()
-	devAddr := util.Ptr(model.AddressDeviceType(pr.devA))
+	devAddr := devPtr(pr.devA)
+	var devDescr *model.DeviceAddressType
+	if devAddr != nil {
+		devDescr = &model.DeviceAddressType{Device: devAddr}
+	}
 	next := func() *model.MsgCounterType { pr.ctr++; return util.Ptr(model.MsgCounterType(pr.ctr)) }
 	m.inject(pr, model.HeaderType{AddressSource: nmAddr(pr.devA), AddressDestination: nmAddr("d0"), MsgCounter: next(), MsgCounterReference: ref,
 		CmdClassifier: util.Ptr(model.CmdClassifierTypeReply)},
 		model.CmdType{NodeManagementDetailedDiscoveryData: &model.NodeManagementDetailedDiscoveryDataType{
 			SpecificationVersionList: &model.NodeManagementSpecificationVersionListType{SpecificationVersion: []model.SpecificationVersionDataType{"1.3.0"}},
 			DeviceInformation: &model.NodeManagementDetailedDiscoveryDeviceInformationType{Description: &model.NetworkManagementDeviceDescriptionDataType{
-				DeviceAddress: &model.DeviceAddressType{Device: devAddr}, DeviceType: util.Ptr(model.DeviceTypeTypeChargingStation)}},
+				DeviceAddress: devDescr, DeviceType: util.Ptr(model.DeviceTypeTypeChargingStation)}},
 			EntityInformation: []model.NodeManagementDetailedDiscoveryEntityInformationType{
 				{Description: &model.NetworkManagementEntityDescriptionDataType{EntityAddress: &model.EntityAddressType{Device: devAddr, Entity: []model.AddressEntityType{0}},
 					EntityType: util.Ptr(model.EntityTypeTypeDeviceInformation)}},
@@ -797,7 +824,13 @@ func (m *world) exec(op hx.Zs) (obs []hx.Zs, mistimed bool) {
 		if m.bound == p {
 			m.bound = -1
 		}
-		if ok, pnc := guarded(func() { m.dev.RemoveRemoteDevice(m.ski(p)) }); !ok {
+		if ok, pnc := guarded(func() {
+			if viaConnection(p) {
+				m.dev.RemoveRemoteDeviceConnection(m.ski(p))
+			} else {
+				m.dev.RemoveRemoteDevice(m.ski(p))
+			}
+		}); !ok {
 			return m.stuckObs(6), false
 		} else if pnc != nil {
 			panic(pnc)
@@ -1056,6 +1089,8 @@ func gen(r *hx.Rng, tier string, i int) []hx.Zs {
 		ncb = r.Range(0, 4)
 	}
 	npeers := r.Range(1, 3)
+	base := r.Intn(4) // the peers of the history are base, base+1, ... (mod 4): all four peer kinds take part
+	peerOf := func(k int) int64 { return int64((base + k) % 4) }
 	nw := r.Range(1, 4)
 	if tier == "thorough" && r.Chance(1, 4) {
 		nw = r.Range(3, 7)
@@ -1070,7 +1105,7 @@ func gen(r *hx.Rng, tier string, i int) []hx.Zs {
 	// approval profile of the history: mostly approving / mixed / mostly silent
 	profile := r.Intn(3)
 	for k := 0; k < nw; k++ {
-		p := int64(r.Intn(npeers))
+		p := peerOf(r.Intn(npeers))
 		ctr[p] += int64(r.Range(1, 3))
 		c := ctr[p]
 		arrive := &seqT{ops: []hx.Zs{{1, p, c, int64(r.Intn(2)), 0}}}
@@ -1099,8 +1134,8 @@ func gen(r *hx.Rng, tier string, i int) []hx.Zs {
 		active = append(active, arrive)
 	}
 	for p := 0; p < npeers; p++ {
-		if r.Chance(1, 4) {
-			active = append(active, &seqT{ops: []hx.Zs{{6, int64(p)}}})
+		if r.Chance(1, 3) {
+			active = append(active, &seqT{ops: []hx.Zs{{6, peerOf(p)}}})
 		}
 	}
 	for len(active) > 0 {
@@ -1127,11 +1162,11 @@ func gen(r *hx.Rng, tier string, i int) []hx.Zs {
 			case 0:
 				h = append(h, hx.Zs{0})
 			case 1:
-				h = append(h, hx.Zs{3, int64(r.Intn(3)), int64(r.Range(1, 6)), int64(r.Intn(3))})
+				h = append(h, hx.Zs{3, int64(r.Intn(4)), int64(r.Range(1, 6)), int64(r.Intn(3))})
 			case 2:
-				h = append(h, hx.Zs{5, int64(r.Intn(3)), int64(r.Range(1, 6))})
+				h = append(h, hx.Zs{5, int64(r.Intn(4)), int64(r.Range(1, 6))})
 			default:
-				h = append(h, hx.Zs{2, int64(r.Intn(3)), int64(r.Range(1, 6)), int64(r.Intn(4)), 1})
+				h = append(h, hx.Zs{2, int64(r.Intn(4)), int64(r.Range(1, 6)), int64(r.Intn(4)), 1})
 			}
 		}
 	}
@@ -1162,6 +1197,14 @@ func fixed(tier string) [][]hx.Zs {
 			{2, 1, 1, 1, 0}, {2, 0, 1, 1, 1}, {3, 0, 1, 1}, {3, 1, 1, 1}, {2, 1, 1, 2, 1}, {3, 1, 1, 2}, {2, 0, 2, 0, 1}, {3, 0, 2, 0},
 			{4, 0, 2}, {5, 0, 2}, {2, 0, 2, 2, 1}, {3, 0, 2, 2}, {4, 0, 1}, {5, 0, 1}, {4, 1, 1}, {5, 1, 1}, {7}},
 	}
+	hs = append(hs,
+		// a peer without device address: its connection is removed (RemoveRemoteDevice) while a write is pending, then the timeout and a late verdict
+		[]hx.Zs{{0}, {1, 1, 10, 1, 0}, {1, 0, 10, 1, 0}, {6, 1}, {4, 1, 10}, {5, 1, 10}, {2, 1, 10, 0, 1}, {3, 1, 10, 0}, {2, 0, 10, 0, 1}, {3, 0, 10, 0}, {7}},
+		// the same through RemoveRemoteDeviceConnection, with a verdict looked up before and committed after the removal
+		[]hx.Zs{{0}, {0}, {1, 3, 10, 1, 0}, {2, 3, 10, 0, 1}, {3, 3, 10, 0}, {2, 3, 10, 1, 1}, {6, 3}, {3, 3, 10, 1}, {4, 3, 10}, {5, 3, 10}, {7}},
+		// two peers without device address pending together, one removed
+		[]hx.Zs{{0}, {1, 1, 5, 1, 0}, {1, 3, 5, 0, 0}, {6, 3}, {2, 3, 5, 0, 1}, {3, 3, 5, 0}, {2, 1, 5, 0, 1}, {3, 1, 5, 0}, {4, 3, 5}, {5, 3, 5}, {7}},
+	)
 	for i := range hs {
 		hs[i] = assignSlots(hs[i])
 	}
